@@ -301,6 +301,7 @@ def run_conc(case, choices=None, default="rr"):
     Holder.prop.__set_name__(Holder, "prop")
     obj = Holder()
     waiting = [0]
+    seen_failures = []
 
     async def awaiter(i):
         for _ in range(case["awaits"][i]):
@@ -310,6 +311,7 @@ def run_conc(case, choices=None, default="rr"):
             try:
                 value = await obj.prop
             except FAILURES as exc:
+                seen_failures.append(exc)
                 owner = next((r[2] for r in runs if r[0] == "failed" and r[1] is exc), None)
                 if owner != f"t{i}":
                     # the failure of a getter run belongs to the task that ran it; others compute for themselves
@@ -346,11 +348,19 @@ def run_conc(case, choices=None, default="rr"):
     cancelled_name = f"t{case['cancel'][0]}" if case["cancel"] else None
     for t in sched.tasks:
         kind, value = t.outcome
+        if getattr(t, "cancelled", False) and not (kind == "raise" and value is cancel_obj):
+            # what the loop threw into a task comes out of it again: it is never answered with a value
+            return sched, [("cancellation-swallowed", f"{t.name}: {t.outcome!r} {detail}")], flags
         if kind == "raise" and value is cancel_obj and t.name != cancelled_name:
             # a cancellation belongs to the task it was thrown into: others proceed (and compute themselves)
             return sched, [("cancellation-of-one-task-raised-in-another", f"{t.name} {detail}")], flags
         if kind == "raise" and value is not cancel_obj:
             return sched, [("task-raised", f"{t.name}: {value!r}")], flags
+    for r in runs:
+        if r[0] == "failed" and not any(r[1] is e for e in seen_failures) and (r[2] or "").startswith("t") \
+                and not (case["cancel"] and r[2] == cancelled_name):
+            # the failure of a getter run reaches the task that ran it (it is not papered over with someone's value)
+            return sched, [("getter-failure-swallowed", f"run of {r[2]} failed with {r[1]!r} {detail}")], flags
     returned = [r[1] for r in runs if r[0] == "returned"]
     bad_runs = sum(1 for r in runs if r[0] in ("failed", "cancelled"))
     for i, value in results:
